@@ -50,7 +50,7 @@ def rows_for(s, rng, quick):
     return rows
 
 
-def roundtrip(s, layout, batch, pair=None):
+def roundtrip(s, layout, batch, pair=None, dtype=None):
     """Returns list of (bits, out, nsym, raised) per row."""
     m, d = pair if pair is not None else (s.mod(), s.dem())
     for o in (m, d):
@@ -71,7 +71,9 @@ def roundtrip(s, layout, batch, pair=None):
         return res
     try:
         X = torch.tensor(batch, dtype=torch.float32)
-        if layout == "2d" and len(batch) % 3 == 1:
+        if dtype is not None:
+            X = X.to(dtype)
+        elif layout == "2d" and len(batch) % 3 == 1:
             from .core import noncontiguous
             X = noncontiguous(X)          # some batches arrive as a non-contiguous strided view of a larger buffer
         elif layout == "2d" and len(batch) % 3 == 2:
@@ -150,6 +152,18 @@ def run(run):
             probe = next(((lay, bt) for (lay, bt) in rws if lay == "2d"), rws[0] if rws else None)
             if probe is not None:
                 base = roundtrip(s, probe[0], probe[1])
+                # the bits as other dtypes (a modulator may reject one; different bits count)
+                for dt in (torch.float64, torch.int64, torch.uint8, torch.int8, torch.bool, torch.float16, torch.bfloat16):
+                    kind = "bits as " + str(dt).replace("torch.", "")
+                    for (b0, (bits, out, nsym, raised, err)) in zip(base, roundtrip(s, probe[0], probe[1], dtype=dt)):
+                        run.case((s.name, probe[0], kind, tuple(bits[:64]), len(bits)), nontrivial=len(bits) >= 2 * b)
+                        if raised and not b0[3]:
+                            rejected_forms.add((s.name, kind))
+                            continue
+                        if (out, raised) != (b0[1], b0[3]):
+                            tid += 1
+                            evs.append({"ev": "RoundTrip", "tid": tid, "kind": s.kind, "bits": bits, "out": out, "nsym": nsym, "raised": raised, "error": err, "form": kind})
+                            owner.append((s, probe[0], kind))
                 fm, fd = dict(module_forms(s.mk_mod(), mk=s.mk_mod)), dict(module_forms(s.mk_dem(), mk=s.mk_dem))
                 for kind in fm:
                     if kind not in fd:
